@@ -242,6 +242,20 @@ def entry_checksum(fn: ast.FunctionDef) -> Tuple[str, str]:
     return value_in(branch.body), value_in(branch.orelse)
 
 
+def batch_guard(fn: ast.FunctionDef) -> None:
+    """Table._iter_file_batches: the rows read from a file are compared with the FILE-LEVEL count of its footer
+    (`rows_read != pf.metadata.num_rows` -> raise).  Anything else fails closed."""
+    want = "Compare(Name('rows_read', Load()), [NotEq()], [Attribute(Attribute(Name('pf', Load()), 'metadata', Load()), 'num_rows', Load())])"
+    for node in ast.walk(fn):
+        if isinstance(node, ast.If) and isinstance(node.test, ast.Compare) and dump(node.test.left) == "Name('rows_read', Load())":
+            if dump(node.test) != want:
+                raise Unsupported(f"_iter_file_batches: the row-count guard is {dump(node.test)}")
+            if not (node.body and isinstance(node.body[-1], ast.Raise)):
+                raise Unsupported("_iter_file_batches: the row-count guard does not raise")
+            return
+    raise Unsupported("_iter_file_batches: no row-count guard (rows_read != pf.metadata.num_rows)")
+
+
 def coq_list(xs: List[str]) -> str:
     return "[" + "; ".join(coq_str(x) for x in xs) + "]"
 
@@ -271,6 +285,7 @@ def gen_read(src: str) -> str:
     tx = parse_module(src, "transaction.py")
     vdef = verify_default(find_function(tx, "_resolve_verify_checksums", "Table"))
     ck_added, ck_existing = entry_checksum(find_function(fm, "create_manifest_file", "FileManager"))
+    batch_guard(find_function(tx, "_iter_file_batches", "Table"))
     return f"""(* GENERATED by translator/gen_read.py from src/datashard/{{file_manager,integrity,transaction}}.py -- do not edit *)
 From Coq Require Import NArith List String.
 Import ListNotations.
@@ -290,6 +305,9 @@ Definition verify_default_on : bool := {"true" if vdef else "false"}.
    (status EXISTING).  Entries are written in the order [ADDED...] ++ [EXISTING...]. *)
 Definition gen_entry_checksum (added : bool) (c : option N) : option N :=
   if added then {ck_added} else {ck_existing}.
+(* Table._iter_file_batches raises unless the rows it read from a file number exactly the footer's FILE-LEVEL
+   num_rows (checked on the source: `rows_read != pf.metadata.num_rows`) *)
+Definition batch_guard_is_file_level_count : bool := true.
 (* number of read-path functions whose normalised AST equals the golden copy *)
 Definition pinned_functions : nat := {len(PINNED)}.
 """
